@@ -48,21 +48,12 @@ pub enum Node {
 fn gamma(a: f64) -> f64 {
     let mut s = 2.485_740_891_387_535_5e-5;
     if a < 0.5 {
-        s += 1.051_423_785_817_219_7 / (1.0 - a);
-        s += -3.456_870_972_220_162_5 / (2.0 - a);
-        s += 4.512_277_094_668_948 / (3.0 - a);
-        s += -2.982_852_253_235_766_4 / (4.0 - a);
-        s += 1.056_397_115_771_267 / (5.0 - a);
-        s += -1.954_287_731_916_458_7e-1 / (6.0 - a);
-        s += 1.709_705_434_044_412e-2 / (7.0 - a);
-        s += -5.719_261_174_043_057e-4 / (8.0 - a);
-        s += 4.633_994_733_599_057e-6 / (9.0 - a);
-        s += -2.719_949_084_886_077_2e-9 / (10.0 - a);
-        std::f64::consts::PI
-            / ((std::f64::consts::PI * a).sin()
-                * s
-                * 1.860_382_734_205_265_7
-                * ((a - 10.400511) / std::f64::consts::E).powf(0.5 - a))
+        // reflection formula: gamma(a) = pi / (sin(pi * a) * gamma(1 - a)); the sine is taken of
+        // the distance to the nearest integer, which is exact, so that it stays accurate near the poles
+        let nearest = a.round();
+        let sign = if nearest % 2.0 == 0.0 { 1.0 } else { -1.0 };
+        let sin_pi_a = sign * (std::f64::consts::PI * (a - nearest)).sin();
+        std::f64::consts::PI / (sin_pi_a * gamma(1.0 - a))
     } else {
         s += 1.051_423_785_817_219_7 / a;
         s += -3.456_870_972_220_162_5 / (a + 1.0);
